@@ -5,6 +5,7 @@ from .ir import IRError
 from .specs.base_spec import NoSpec
 from .poly import Poly, FV, as_poly, P
 import re as _re
+import re
 
 
 from .report import Report
@@ -68,7 +69,10 @@ def check_overload(rep, mod, cfg, name, specfn, alias=None, extents_fn=None, sam
         except Exception:
             pass
     try:
-        for dec, eff, values, atom_subst in explore_paths(mod, name, summ, ctx, params0, alias=alias, extents=ext):
+        for dec, eff, values, atom_subst in explore_paths(mod, name, summ, ctx, params0, alias=alias, extents=ext,
+                                                         opts0={'trace_rw': True} if not alias else None):
+            if not alias:
+                _phase_discipline(rep, mod, dem, tag, site, eff)
             ptag = tag + ('' if not dec else ' path[' + ','.join(
                 ('%s%s%d' % (k[1], '<=' if v else '>', k[2])) if k[0] == 'rng' else
                 ('(%s)%s0' % (v[1], '==' if v[0] else '!=')) if k[0] == 'lin' else
@@ -307,6 +311,51 @@ def _subst_key(k, mp):
         if off.isconst():
             off = off.cval()
     return (reg, off)
+
+
+_PHASE = None
+PHASE_LOG = None        # set to a set() to collect the overloads that keep the discipline (generation of the pinned table)
+
+
+def reads_before_writes(eff):
+    """do all reads of array operands precede the first write to an array operand?  (registers passed by reference are left out:
+    a register and an array cannot partially overlap in any sensible call)"""
+    rw = getattr(eff.interp, 'rw', None)
+    if rw is None:
+        return None
+    arrays = {p.name for p in eff.params if p.region is not None and re.match(r'^(E|ul)( const)?\s*\*$', p.dty)}
+    seen_w = False
+    for kind, reg, off in rw:
+        if reg not in arrays:
+            continue
+        if kind == 'w':
+            seen_w = True
+        elif seen_w:
+            return False
+    return True
+
+
+def _phase_discipline(rep, mod, dem, tag, site, eff):
+    """overlap discipline: the routines of the pinned tree listed in specs/pinned_phase.json gather all their operands before
+    they store any result, so their result is the one for the operand values at entry however result and operand arrays overlap
+    (shifted by one coordinate, re-strided in place ...).  A routine that has the discipline on the pinned tree must keep it:
+    a read after a write changes the result for overlapping calls."""
+    global _PHASE
+    ok = reads_before_writes(eff)
+    if PHASE_LOG is not None:
+        PHASE_LOG.add((dem, ok))
+    if _PHASE is None:
+        import json, os
+        try:
+            _PHASE = set(json.load(open(os.path.join(os.path.dirname(__file__), 'specs', 'pinned_phase.json'))))
+        except (OSError, ValueError):
+            _PHASE = set()
+    if dem in _PHASE and ok is False:
+        rep.refute('overlap:' + tag, 'wrapper-overlap', site, 'an array operand is read after a result has been stored: with result and operand '
+                   'arrays that overlap (shifted by one element, re-strided in place) the routine no longer computes on the operand values '
+                   'at entry, as it does on the pinned tree (all gathers before the first store)')
+    elif dem in _PHASE and ok:
+        rep.ok('overlap:' + tag, 'wrapper-overlap', site, 'all operand arrays are read before the first result is stored')
 
 
 def _compare(rep, mod, cfg, name, dem, tag, site, specfn, eff, ctx, values, alias, sample, atom_subst=None):
